@@ -36,6 +36,12 @@ def run(repo, run, tier):
     first_attempt_uses_given_step(repo, run)
     facade_leaves_dt_alone(repo, run)
     who_stores_dt(repo, run)
+    # 'a step size assigned by a callback is the one used for the next step': the dt setter stores what it is given (no clamp to the construction interval)
+    from ..report import Rejudged
+    from .c04 import setter_keeps_magnitude
+    rj = Rejudged(run, {"C04.8": "C20.11"}, note="re-judged for C20: callbacks assign the step through this setter")
+    setter_keeps_magnitude(repo, rj)
+    rj.finish_rejudge()
 
 
 def who_calls(repo, run):
